@@ -13,8 +13,11 @@
 //!     transaction's first write and changes no other row,
 //!   * committed-state oracle (serial specification): whenever no transaction is open, every table equals the
 //!     image built from committed work only ("as if none of a rolled-back transaction's statements had run");
-//!   * exclusion oracle: a statement that changes a row another open transaction has written must have failed
-//!     with a lock conflict unless that lock timed out,
+//!   * exclusion oracle: a statement that changes a row another open transaction has written (updated, deleted
+//!     OR inserted — dcf916e8) must have failed with a lock conflict unless that lock timed out; the writer holds
+//!     the lock of every row it wrote right after its statement,
+//!   * calm-rollback oracle (`rollback_restores`): a rollback of a transaction none of whose rows was interfered
+//!     with after a lock expiry answers Ok,
 //!   * index oracle: every index-served answer equals the filter of the full-scan image (no missing row, no
 //!     duplicate), finished-transaction oracle, lock-release / lock-expiry oracles.
 //! Time: the engine reads the wall clock (no hook); lock timeouts exist in whole seconds only.  Timeout
@@ -645,6 +648,10 @@ fn exec_script(ops: &[Op], cfg: Cfg, mut model: Option<&mut Model>) -> Outcome {
                     }
                     // snapshot oracle
                     let hd = w.handles.get_mut(h).unwrap();
+                    if !ok && hd.interfered.is_empty() {
+                        out.viol("relational_engine.rollback/failed_without_interference".into(),
+                                 format!("{} -> {r_real} although no row of the transaction was touched by anybody else", op.show()), step);
+                    }
                     hd.state = HState::RolledBack;
                     for (k, pre) in &hd.first_touch {
                         if hd.interfered.contains(k) {
@@ -1073,6 +1080,10 @@ fn directed() -> Vec<(&'static str, Cfg, Vec<Op>)> {
     s.extend([Begin(0), Begin(1), TxUpdate(0, 0, Cond::Id(1), vec![(0, 4)]), TxUpdate(1, 0, Cond::Id(1), vec![(0, 5)]), Tick(1100),
               TxUpdate(1, 0, Cond::Id(1), vec![(0, 5)]), Commit(1), Rollback(0), Sweep]);
     out.push(("lock_expiry_then_rollback", short, s));
+    // lock expiry, the other transaction DELETES and commits the row: the undo's restore_row fails (RollbackFailed)
+    let mut s = base(true);
+    s.extend([Begin(0), Begin(1), TxUpdate(0, 0, Cond::Id(1), vec![(0, 4)]), Tick(1100), TxDelete(1, 0, Cond::Id(1)), Commit(1), Rollback(0), Sweep]);
+    out.push(("lock_expiry_delete_then_rollback", short, s));
     let mut s = base(true);
     s.extend([Begin(0), Begin(1), TxUpdate(0, 0, Cond::Id(1), vec![(0, 4)]), TxDelete(0, 0, Cond::Id(2)), Tick(1100), CleanupLocks,
               TxDelete(1, 0, Cond::Id(2)), TxUpdate(0, 0, Cond::Id(1), vec![(1, 0)]), TxUpdate(1, 0, Cond::Id(1), vec![(0, 5)]), Commit(0), Commit(1), Sweep]);
@@ -1188,6 +1199,25 @@ fn main() {
         absorb(&mut rep, &mut tally, "directed", cfg, &ops, out, true);
     }
 
+    // every known finding must have been reproduced by the directed scenarios above (deterministic, seed independent)
+    for class in ["relational_engine.rollback/index_entry_not_restored",
+                  "relational_engine.rollback/committed_write_undone_after_lock_expiry",
+                  "relational_engine.rollback/duplicate_row_in_index_answer",
+                  "relational_engine.cleanup_expired/uncommitted_change_kept"] {
+        if tally.per_class.contains_key(class) {
+            rep.hit(&format!("directed_reproduced:{class}"));
+        } else {
+            rep.note(&format!("known finding {class} was NOT reproduced by the directed scenarios of this run"));
+        }
+    }
+    // the fixed findings (c322e794, dcf916e8) must stay fixed: their directed scenarios ran above without a violation
+    for class in ["relational_engine.tx_insert/uncommitted_insert_not_locked", "relational_engine.rollback/phantom_row",
+                  "relational_engine.create_btree_index/duplicate_row_in_index_answer"] {
+        if !tally.per_class.contains_key(class) {
+            rep.hit(&format!("fixed_stays_fixed:{class}"));
+        }
+    }
+
     // 2. random interleavings, no DDL inside transactions
     let mut rng = root.fork("interleave");
     let n = if args.thorough { 6000 } else { 450 };
@@ -1230,6 +1260,13 @@ fn main() {
         "op:create_btree_index:index_exists", "op:drop_index:ok", "op:drop_index:index_not_found", "op:drop_btree_index:ok",
         "op:drop_btree_index:index_not_found", "op:cleanup_expired_locks:ok", "op:cleanup_expired:ok", "op:lock_timeout:ok",
         "write_after_lock_expiry", "tx_expired_by_cleanup", "quiescent_check",
+        "directed_reproduced:relational_engine.rollback/index_entry_not_restored",
+        "directed_reproduced:relational_engine.rollback/committed_write_undone_after_lock_expiry",
+        "directed_reproduced:relational_engine.rollback/duplicate_row_in_index_answer",
+        "directed_reproduced:relational_engine.cleanup_expired/uncommitted_change_kept",
+        "fixed_stays_fixed:relational_engine.tx_insert/uncommitted_insert_not_locked",
+        "fixed_stays_fixed:relational_engine.rollback/phantom_row",
+        "fixed_stays_fixed:relational_engine.create_btree_index/duplicate_row_in_index_answer",
     ].iter().map(|s| s.to_string()).collect();
     rep.note("time: the engine reads SystemTime::now() (no clock hook); lock/transaction timeouts are whole seconds, so timeout \
               scripts use 1 s timeouts and real 1100 ms sleeps; the exact `elapsed == timeout` millisecond boundary is not exercised");
